@@ -258,7 +258,7 @@ func judgeRollout(c Case) ([]finding, string, []string) {
 	var trace []string
 	outcome := ""
 	// two passes: the second one must behave the same (violations are retried, not remembered)
-	for passNo := 0; passNo < 2; passNo++ {
+	for passNo := 0; passNo < 3; passNo++ {
 		pass := b.w.Reconcile(b.ctrl, b.nn, nil)
 		trace = append(trace, pass.Trace()...)
 		if pass.Panic != "" {
@@ -294,6 +294,12 @@ func judgeRollout(c Case) ([]finding, string, []string) {
 			outcome = "preflight-error"
 			if (avail != "False" || reason != "PreflightError") && !(b.errAccepted && pass.Err != nil) {
 				out = append(out, finding{"preflight-violation-not-reported", fmt.Sprintf("preflight violation expected (first bad phase %d, dup=%q) but persisted Available=%q/%q, pass error=%v", b.badPhase+1, c.Dup, avail, reason, pass.Err)})
+			}
+			// "... and are retried": nothing else wakes a blocked owner up (it owns nothing yet and
+			// its own generation does not move), so every such pass - the first and every later one -
+			// has to come back by itself: an error, or a requeue
+			if reason == "PreflightError" && pass.Err == nil && pass.Result.RequeueAfter <= 0 && !pass.Result.Requeue {
+				out = append(out, finding{"preflight-violation-not-retried", fmt.Sprintf("pass %d reports Available=False/PreflightError and returns neither an error nor a requeue: the violation is never re-examined", passNo+1)})
 			}
 		} else if c.Dup != "" {
 			outcome = "duplicate-undecided-for-owner"
